@@ -162,4 +162,29 @@ theorem C16_signal_path_model_ok (ops : List Op) (hns : ∀ op ∈ ops, ∀ n, o
 example : signalPathLaw [⟨1, 1, ⟨[⟨.file, 1, false, false⟩], .none, false, false⟩⟩] [.term]
     [.stop 1 0, .cb .sd 1 0, .cb .sd 1 1, .cb .fd 1 0, .cb .fd 1 1] true = some "shutdown-once" := by decide
 
+/-- **The shutdown pass covers every instance that is live when it begins.**  The pass cut into its steps (`begin`, one `visit`
+per instance) and interleaved in ANY way with changes of the instance list by other goroutines (`mutate f` for an arbitrary
+`f`: a reload appending and splicing, a stop splicing — in the code they wait for the mutex; the theorem does not even need
+that) and with further `begin`s: once as many visits have happened as instances were live at the beginning, the pass has run
+exactly the shutdown and final-shutdown callbacks of those instances, each once, in order — no instance is skipped, none is
+visited twice, none that appeared later is visited. -/
+theorem C16_shutdown_covers_all_live_instances (live : List Inst) (acts : List PassAct)
+    (hv : live.length ≤ visits acts) :
+    (passRun { live := live, remaining := none, out := [] } (.begin :: acts)).out = shutdownEvents live := by
+  obtain ⟨t', _, h2, h3⟩ := pass_invariant acts { live := live, remaining := some live, out := [] } live rfl
+  have ht : t' = [] := List.eq_nil_of_length_eq_zero (by omega)
+  subst ht
+  simpa [passRun, passStep, shutdownEvents] using h2
+
+/-- three instances, a reload of the first one squeezed in after the first visit: the pass still runs the callbacks of
+exactly the three -/
+example : visits [.visit, .mutate (fun l => l.drop 1 ++ [⟨9, 1, ⟨[], .none, false, false⟩⟩]), .visit, .begin, .visit] = 3 := by
+  decide
+
+/-- … and the atomic shutdown step of the lifecycle model is that pass: the first signal emits `shutdownEvents` of the
+instances live at that moment. -/
+theorem C16_signal_is_the_pass (s : State) (n : Nat) (h : s.once = false) :
+    (step s (.signal n)).2.events = shutdownEvents s.insts := by
+  simp [step, h]
+
 end Casket.Props.C16
